@@ -360,18 +360,32 @@ def sz345(F, R, roundtrip=True):
             R.bad("SZ3", "SZ3/Sodg::save/not-self-whole", sers[0].where(), "save() does not serialise the whole graph", {"arg": show(a, save)})
         else:
             R.ok("SZ3", sers[0].where(), "save(): bincode serialisation of the whole `self`")
-    ws = [e for e in fsops if e.name == "write"]
+    ws = [e for e in fsops if e.name == "write" and "OpenOptions" not in e.path]
     # the same with an explicit handle: File::create(path) + write_all(file, bytes)
     creates = [e for e in fsops if e.name == "create" and "File" in e.path]
     wall = [e for e in fsops if e.name == "write_all"]
     via_handle = len(creates) == 1 and len(wall) == 1 and len(fsops) == 2 and not ws and \
         mentions_call(wall[0].args[0], creates[0])
+    path_arg = 0
+    # ... or OpenOptions::new().write(true).create(true).truncate(true).open(path) + write_all: what fs::write does; without
+    # `truncate(true)` the tail of a longer old image stays in the file
+    oopen = [e for e in fsops if e.name == "open" and "OpenOptions" in e.path]
+    if not via_handle and len(oopen) == 1 and len(wall) == 1 and not ws and not creates and len(oopen[0].args) == 2:
+        chain = oopen[0].args[0]
+
+        def opt(name, val=True):
+            return mentions(chain, lambda x: x[0] == "call" and "OpenOptions" in x[1] and x[1].split("::")[-1] == name and len(x[2]) == 2 and
+                            strip_load(x[2][1])[0] == "const" and bool(strip_load(x[2][1])[1]) is val)
+        others = [e for e in fsops if e not in oopen and e not in wall and not ("OpenOptions" in e.path and e.name in ("new", "write", "create", "truncate"))]
+        if opt("write") and opt("create") and opt("truncate") and not opt("append") and not opt("create_new") and not others and \
+                mentions_call(wall[0].args[0], oopen[0]):
+            via_handle, creates, path_arg = True, oopen, 1
     if not via_handle and (len(ws) != 1 or len(fsops) != 1):
         R.bad("SZ3", "SZ3/Sodg::save/file-writes", save.where(), "cannot establish SZ3: save() performs %d file operations (expected one fs::write)" % len(fsops))
     elif sers:
         w = wall[0] if via_handle else ws[0]
         args = [strip_load(a) for a in w.args]
-        okp = (strip_load(creates[0].args[0]) if via_handle else args[0]) == ("param", 2)
+        okp = (strip_load(creates[0].args[path_arg]) if via_handle else args[0]) == ("param", 2)
         data = args[1]
         okd = mentions_call(data, sers[0]) and \
             not mentions(data, lambda x: x[0] in ("slice", "subslice") or (x[0] == "call" and x[1].split("::")[-1] in
